@@ -39,6 +39,9 @@ func readLine(b []byte, pos int) ([]byte, int, error) {
 		if b[i] == '\n' {
 			return nil, 0, fmt.Errorf("bare LF in header line at %d", i)
 		}
+		if b[i] == '\r' {
+			return nil, 0, fmt.Errorf("bare CR in header line at %d", i)
+		}
 	}
 	return nil, 0, ErrIncomplete
 }
